@@ -174,29 +174,76 @@ func solveAll(workDir string, frs []*FuncResult, timeoutS int, jobs int) {
 						}
 						all = append(all, j.fr.Facts[:o.NFacts]...)
 						gfile := strings.TrimSuffix(file, ".smt2") + ".ground.smt2"
-						for _, rounds := range []int{1, 2, 3, 5} {
-							lines, n := groundQuery(all, o.Pc, o.Goal, rounds)
-							if n == o.Instances && rounds > 1 {
-								break // nothing new to try
+						tryGround := func(assume map[string]bool) SolverResult {
+							var r SolverResult
+							last := -1
+							for _, rounds := range []int{1, 2, 3, 5} {
+								lines, n := groundQueryAssume(all, o.Pc, o.Goal, rounds, assume)
+								if n == last {
+									break // nothing new to try
+								}
+								last = n
+								writeQueryQF(gfile, lines)
+								if n > o.Instances {
+									o.Instances = n
+								}
+								r = runSolver("z3-new", gfile, timeoutS)
+								if r.Status == "unsat" {
+									return r
+								}
+								if r.Status != "sat" {
+									// the ground query is decidable in principle: a timeout means it is too big
+									r2 := runSolver("cvc5", gfile, timeoutS/2)
+									if r2.Status == "unsat" {
+										return r2
+									}
+								}
 							}
-							writeQueryQF(gfile, lines)
-							o.Instances = n
-							res = runSolver("z3-new", gfile, timeoutS)
-							if res.Status == "unsat" {
-								break
-							}
-							if res.Status != "sat" {
-								// the ground query is decidable in principle: a timeout here means it is too big
-								r2 := runSolver("cvc5", gfile, timeoutS/2)
-								if r2.Status == "unsat" {
-									res = r2
-									break
+							return r
+						}
+						res = tryGround(nil)
+						if res.Status == "sat" {
+							// case split on the conditions of state merges (ite), at most two of them:
+							// every case must be refuted
+							conds := iteConditions(j.fr.Facts[:o.NFacts])
+							for k := 1; k <= 2 && k <= len(conds) && res.Status != "unsat"; k++ {
+								allUnsat := true
+								var worst SolverResult
+								for mask := 0; mask < 1<<k; mask++ {
+									as := map[string]bool{}
+									for b := 0; b < k; b++ {
+										as[conds[b]] = mask&(1<<b) != 0
+									}
+									rc := tryGround(as)
+									if rc.Status != "unsat" {
+										allUnsat = false
+										worst = rc
+										break
+									}
+									worst = rc
+								}
+								if allUnsat {
+									res = worst
+									res.Status = "unsat"
+									res.Solver = "z3-new+case-split"
 								}
 							}
 						}
 						if res.Status == "unsat" {
 							res.Solver += "+ground-instances"
 							o.File = gfile
+						} else if res.Status == "sat" {
+							// a model of the instantiated (weakened) query: candidate counterexample.
+							// One more look at the full query with the other solvers, briefly.
+							gm := runSolver("z3-new", gfile, 5)
+							r3 := runSolver("cvc5", file, 4)
+							if r3.Status == "unsat" {
+								res = r3
+							} else {
+								res.Status = "unknown"
+								res.Output = "ground-instantiated query is satisfiable (candidate counterexample); full query: " + r3.Status
+								_ = gm
+							}
 						} else {
 							// last resort: the original quantified query through the portfolio
 							res = solveFile(file, timeoutS, false)
